@@ -84,6 +84,9 @@ def _connect(ctx, R, T, cls):
     claims = [(n, c) for n in g.live_nodes() for c in node_calls(n) if call_attr(c) == "claimInterface"]
     ok = len(binds) == 1 and len(claims) == 1 and g.dominates(binds, claims[0][0]) and g.dominates([claims[0][0]], g.exit, exc=False)
     R.check(ok, "CLAIM", q + "|claim", "the interface is claimed after the handle is bound, on every normal path", "connect() does not claim the interface on every path after binding the handle", f.loc())
+    if len(claims) == 1:
+        from ..util import swallowing_handlers
+        R.check(not swallowing_handlers(g, claims[0][0]), "CLAIM", q + "|claim-not-swallowed", "a failed claim propagates", "a handler around claimInterface completes normally: connect() succeeds although the interface was not claimed", f.loc(claims[0][0].ast))
     if len(binds) == 1:
         t = T.term(f, binds[0], binds[0].ast.value)
         R.check(t == ("call", ".open", (("attr", ("p", selfn), "_device"),), ()), "CLAIM", q + "|handle", "the handle is the opened device", "the handle bound is %s" % show(t), f.loc(binds[0].ast))
